@@ -93,7 +93,7 @@ def runOps (w : World) : St → List Op → List Sexp
   | _, [] => []
   | st, .imp m :: rest =>
     match importMod w st m with
-    | none => .atom "notfound" :: runOps w st rest
+    | none => .atom "notfound" :: runOps w (afterNotFound w st m) rest
     | some (st', some e) => .list [.atom "err", ofErr e] :: runOps w st' rest
     | some (st', none) => .atom "ok" :: runOps w st' rest
   | st, .get i r order :: rest =>
